@@ -153,7 +153,14 @@ public:
 
   QUILL_ATTRIBUTE_HOT void commit_read() noexcept
   {
-    if (static_cast<integer_type>(_reader_pos - _atomic_reader_pos.load(std::memory_order_relaxed)) >= _bytes_per_batch)
+    auto const unpublished_bytes =
+      static_cast<integer_type>(_reader_pos - _atomic_reader_pos.load(std::memory_order_relaxed));
+
+    // Publish in batches, but always publish when the reader has caught up with the writer:
+    // otherwise the unpublished remainder stays invisible to a producer that waits for (almost)
+    // the whole capacity, and it keeps waiting although the queue is empty
+    if ((unpublished_bytes >= _bytes_per_batch) ||
+        ((unpublished_bytes != 0) && (_reader_pos == _writer_pos_cache)))
     {
       _atomic_reader_pos.store(_reader_pos, std::memory_order_release);
 
